@@ -157,32 +157,32 @@ harness!(c12_prefix_from_arrival_bound_until, 10, |s| {
     cover!(d == horizon && horizon >= 5, "query exactly at the horizon");
 });
 
-harness!(c12_curve_from_prefix, 10, |s| {
-    // ArrivalCurvePrefix with steps (1, n1), (x, n1 + 1) and horizon >= x
-    let x = s.from(2, 3);
-    let horizon = x + s.bits(3);
+// From<&ArrivalCurvePrefix> for Curve: the prefix (two steps) is a concrete shape - its
+// steps_iter is an unbounded flat_map over horizon cycles, symbolic positions exhaust memory
+fn curve_from_prefix_body(s: &mut Src, x: u64, horizon: u64) {
     let mut v = Vec::with_capacity(4);
     v.push((Duration::from(1), 1usize));
     v.push((Duration::from(x), 2usize));
     let p = ArrivalCurvePrefix::new(Duration::from(horizon), v);
     let c = Curve::from(&p);
     let d = s.bits(15);
-    assert!(na(&c, d) >= {
-        // the source's exact values inside its horizon; beyond it the prefix's own
-        // (coarser) repetition is not the reference
-        if d <= horizon { na(&p, d) } else { 0 }
-    });
+    // inside its horizon the prefix is exact and so is the derived curve; beyond it
+    // the prefix's own (coarser) repetition is not the reference
     if d <= horizon {
         assert!(na(&c, d) == na(&p, d));
+    } else {
+        assert!(na(&c, d) >= 2);
     }
-    cover!(d == horizon && horizon > x, "query at the horizon");
-});
+    cover!(d == horizon, "query at the horizon");
+}
+harness!(c12_curve_from_prefix_2_3, 10, |s| { curve_from_prefix_body(s, 2, 3); });
+harness!(c12_curve_from_prefix_3_7, 10, |s| { curve_from_prefix_body(s, 3, 7); });
 
 pub fn register(t: &mut Table) {
     reg!(t;
         c12_from_trace_2_2, c12_from_trace_3_2, c12_from_trace_4_2, c12_from_trace_4_3, c12_from_trace_5_2, c12_from_trace_5_4,
         c12_from_periodic, c12_delta_min_sporadic, c12_delta_min_symcurve,
         c12_from_arrival_bound_symcurve, c12_from_arrival_bound_until_symcurve,
-        c12_prefix_from_arrival_bound_until, c12_curve_from_prefix,
+        c12_prefix_from_arrival_bound_until, c12_curve_from_prefix_2_3, c12_curve_from_prefix_3_7,
     );
 }
